@@ -26,6 +26,13 @@ type C20Case struct {
 	// Trail: further tokens after the word (the diagnosis concerns the word:
 	// nothing after an unrecognised command word can be interpreted)
 	Trail []string `json:"trail,omitempty"`
+	// Parent: the commands are the sub-commands of this command (which may
+	// itself be hidden: that does not hide its sub-commands from diagnostics
+	// given once it has been selected); the argument vector starts with it
+	Parent       string `json:"parent,omitempty"`
+	ParentHidden bool   `json:"parent_hidden,omitempty"`
+	// HelpFlag: the built-in help option is present
+	HelpFlag bool `json:"help_flag,omitempty"`
 }
 
 var _ = Register("C20", func() interface{} { return new(C20Case) }, func(c interface{}) string { return c20Oracle(c.(*C20Case)) })
@@ -145,6 +152,14 @@ func genC20(t *rapid.T) *C20Case {
 		}
 		c.Word = string(w)
 	}
+	if rapid.IntRange(0, 3).Draw(t, "nested") == 0 {
+		c.Parent = rapid.SampledFrom([]string{"debug", "x", "дн"}).Draw(t, "parent")
+		c.ParentHidden = rapid.Bool().Draw(t, "parentHidden")
+	}
+	c.HelpFlag = rapid.IntRange(0, 2).Draw(t, "helpFlag") == 0
+	if c.HasArg && rapid.IntRange(0, 11).Draw(t, "helpWord") == 0 {
+		c.Word = rapid.SampledFrom([]string{"help", "Help", "hel", "helps"}).Draw(t, "helpWordText")
+	}
 	if c.HasArg && rapid.IntRange(0, 3).Draw(t, "withTrail") == 0 {
 		c.Trail = rapid.SliceOfN(rapid.SampledFrom([]string{"--bogus", "--name", "-v", "x", "--", "--name=1", "-"}), 1, 3).Draw(t, "trail")
 	}
@@ -153,14 +168,25 @@ func genC20(t *rapid.T) *C20Case {
 
 func c20Decl(c *C20Case) *Decl {
 	d := &Decl{Root: Cmd{ID: "root", Name: "app"}}
+	if c.HelpFlag {
+		d.Opts |= uint(flags.HelpFlag)
+	}
 	d.Root.G.Groups = []Group{{Field: "G0", Desc: "Application Options"}}
+	host := &d.Root
+	if c.Parent != "" {
+		d.Root.Cmds = []Cmd{{ID: "parent", Name: c.Parent, Field: "Parent", ByTag: true, Hidden: c.ParentHidden, Desc: "p"}}
+		host = &d.Root.Cmds[0]
+	}
 	for i, n := range c.Names {
-		d.Root.Cmds = append(d.Root.Cmds, Cmd{
+		host.Cmds = append(host.Cmds, Cmd{
 			ID: fmt.Sprintf("c%d", i), Name: n, Field: fmt.Sprintf("C%d", i), ByTag: i%2 == 0,
 			Hidden: c.Hidden[i], Desc: "d",
 		})
+		if c.Parent != "" {
+			host.Cmds[i].ByTag = true // (sub-commands of a tag-declared command are tag-declared)
+		}
 		if i < len(c.Aliases) {
-			d.Root.Cmds[i].Aliases = c.Aliases[i]
+			host.Cmds[i].Aliases = c.Aliases[i]
 		}
 	}
 	return d
@@ -205,9 +231,14 @@ func c20Oracle(c *C20Case) string {
 		args = append([]string{c.Word}, c.Trail...)
 	}
 	decl := c20Decl(c)
+	host := &decl.Root
+	if c.Parent != "" {
+		host = &decl.Root.Cmds[0]
+		args = append([]string{c.Parent}, args...)
+	}
 	if c.LateHide {
-		for i := range decl.Root.Cmds {
-			decl.Root.Cmds[i].Hidden = false
+		for i := range host.Cmds {
+			host.Cmds[i].Hidden = false
 		}
 	}
 	b := Build(decl)
@@ -215,11 +246,18 @@ func c20Oracle(c *C20Case) string {
 		return "setup error: " + b.Err.Error()
 	}
 	if c.LateHide {
-		Safely(func() { b.P.ParseArgs([]string{"\x00warmup"}) })
-		for i := range decl.Root.Cmds {
-			b.Cmds[decl.Root.Cmds[i].ID].Hidden = c.Hidden[i]
+		warm := []string{"\x00warmup"}
+		if c.Parent != "" {
+			warm = []string{c.Parent, "\x00warmup"}
+		}
+		Safely(func() { b.P.ParseArgs(warm) })
+		for i := range host.Cmds {
+			b.Cmds[host.Cmds[i].ID].Hidden = c.Hidden[i]
 		}
 		b.P.Active = nil
+		if c.Parent != "" {
+			b.Cmds["parent"].Active = nil
+		}
 		st.Label("hidden marks set after a first diagnostic")
 	}
 	var err error
@@ -307,6 +345,12 @@ func c20Oracle(c *C20Case) string {
 	}
 	if len(c.Trail) > 0 {
 		st.Label("tokens after the unrecognised word")
+	}
+	if c.Parent != "" {
+		st.Label("sub-commands of a command")
+		if c.ParentHidden {
+			st.Label("sub-commands of a hidden command")
+		}
 	}
 	const dym = ", did you mean `"
 	if strings.HasPrefix(rest, dym) && strings.HasSuffix(rest, "'?") {
